@@ -49,7 +49,7 @@ class Arr(list):
 
 KINDS = ['assign', 'print', 'print2', 'expr', 'printexpr', 'none', 'multi', 'compound', 'def', 'semicolon', 'expr_wild', 'expr_arr', 'expr_words', 'printexpr_semi', 'none_semi']
 # the richer statement grammar of the C01 program generator (C01, C18, C19, C20)
-MORE_KINDS = ['await_expr', 'unawaited_coro', 'esc_literal', 'annotated_def', 'augassign', 'for', 'while', 'with', 'try', 'decodef', 'class', 'literal_comment', 'triple', 'triple_unprefixed', 'triple_blank', 'triple_unprefixed_blank', 'bracket_blank', 'triple_trailing_ws', 'triple_late_unprefixed',
+MORE_KINDS = ['await_expr', 'unawaited_coro', 'esc_literal', 'annotated_def', 'augassign', 'for', 'while', 'with', 'try', 'decodef', 'class', 'literal_comment', 'triple', 'triple_unprefixed', 'triple_blank', 'triple_unprefixed_blank', 'bracket_blank', 'triple_trailing_ws', 'triple_late_unprefixed', 'triple_dots_body',
               'import', 'comment', 'async_await', 'async_for', 'async_with']
 ALL_KINDS = KINDS + MORE_KINDS
 
@@ -163,6 +163,29 @@ class Stmt:
             self.unprefixed = [1]
             self.starts = [0, 3]
             self.out = '2\n'
+        elif kind == 'triple_dots_body':
+            # unprompted lines of a multi-line string that LOOK like prompts: prose led by an ellipsis, a merge-conflict marker, a row of dots
+            self.lines = ["s%d = t(%d) and '''first" % (k, k), '...and so on, and so forth', '>>>>>>> theirs', '........', "last %d'''" % k,
+                          "print(s%d.split(chr(10))[1:4])" % k]
+            self.unprefixed = [1, 2, 3, 4]
+            self.starts = [0, 5]
+            self.out = "['...and so on, and so forth', '>>>>>>> theirs', '........']\n"
+        elif kind == 'save_writer':
+            # (C01 only) keeps a reference to whatever sys.stdout is NOW: a bound write method, the stream itself, a logging handler
+            self.lines = ['import sys, logging', 'emit = sys.stdout.write', 'stream = sys.stdout',
+                          "log = logging.getLogger('xdverif%d'); log.propagate = False; log.setLevel(10)" % k,
+                          'log.handlers[:] = [logging.StreamHandler(sys.stdout)]', 'keep%d = t(%d)' % (k, k)]
+            self.starts = [0, 1, 2, 3, 4, 5]
+        elif kind == 'use_writer':
+            # ... and writes through it later, on the other side of a want: still output of this doctest
+            self.lines = ["n%d = emit('e%da %%d\\n' %% t(%d))" % (k, k, k)]
+            self.out = 'e%da %d\n' % (k, k)
+        elif kind == 'use_stream':
+            self.lines = ["print('s%da', t(%d), file=stream)" % (k, k)]
+            self.out = 's%da %d\n' % (k, k)
+        elif kind == 'use_logger':
+            self.lines = ["log.warning('l%da %%d', t(%d))" % (k, k)]
+            self.out = 'l%da %d\n' % (k, k)
         elif kind == 'inline_skip_triple_blank':
             # (C01 only, never enabled) a statement switched off by an inline directive on its LAST line, an empty line before it
             self.lines = ["print(t(%d), '''first" % k, '', "  third''')  # xdoctest: +SKIP"]
